@@ -74,6 +74,13 @@ def _stmt(name, hi_term=None):
     if name == "SUM_SCALE":
         body = z3.Implies(z3.ForAll([i], z3.Implies(z3.And(i >= lo, i < h), C[i] == c * A[i])), SUM(C, lo, h) == c * SUM(A, lo, h))
         return [A, C, c, lo], hi, body, [z3.MultiPattern(SUM(C, lo, h), SUM(A, lo, h))]
+    if name == "SUM_CONG_RANGE":
+        # arrays that agree on [lo, h) have equal sums over every sub-range of [lo, h)
+        a, b = z3.Ints("la lb")
+        body = z3.Implies(z3.ForAll([i], z3.Implies(z3.And(i >= lo, i < h), A[i] == B[i])),
+                          z3.ForAll([a, b], z3.Implies(z3.And(lo <= a, a <= b, b <= h), SUM(A, a, b) == SUM(B, a, b)),
+                                    patterns=[SUM(A, a, b)]))
+        return [A, B, lo], hi, body, None
     if name == "MINMAX_EXT":
         # pointwise equal arrays have equal minimum and maximum (proved from the defining axioms of MINF/MAXF, no induction)
         body = z3.Implies(z3.And(h >= 1, z3.ForAll([i], z3.Implies(z3.And(i >= 0, i < h), A[i] == B[i]))),
@@ -88,7 +95,7 @@ def _stmt(name, hi_term=None):
     raise EngineError(f"unknown SUM lemma {name}")
 
 
-SUM_LEMMAS = ["SUM_NONNEG", "SUM_POS", "SUM_CONG", "SUM_SPLIT", "SUM_SHIFT", "SUM_LIN", "SUM_CONST", "SUM_SCALE", "ARR_MONO", "MINMAX_EXT"]
+SUM_LEMMAS = ["SUM_NONNEG", "SUM_POS", "SUM_CONG", "SUM_SPLIT", "SUM_SHIFT", "SUM_LIN", "SUM_CONST", "SUM_SCALE", "ARR_MONO", "MINMAX_EXT", "SUM_CONG_RANGE"]
 
 
 def sum_lemma_axiom(name):
@@ -116,8 +123,44 @@ def sum_lemma_obligations(name):
     hyp = z3.ForAll([hi], z3.Implies(z3.And(base <= hi, hi < z3.Int("lhi0")), body))
     goal = z3.substitute(body, (hi, z3.Int("lhi0")))
     deps = [sum_lemma_axiom(d) for d in SUM_DEPS.get(name, [])]     # earlier lemmas (proved on their own, no cycle)
-    o = Obligation(f"lemma::{name}::induction-step", sum_axioms() + deps + [hyp], goal, "lemma", "", func="lemma", clause=name)
+    if name in ("SUM_CONG_RANGE",):
+        # the conclusion is universally quantified over the sub-range (a, b): skolemise it by hand so that the two SUM terms
+        # of the goal are ground and can be unfolded once
+        A, B, lo_ = vs
+        a0, b0, h0, i = z3.Ints("la0 lb0 lhi0 li")
+        prem = z3.ForAll([i], z3.Implies(z3.And(i >= lo_, i < h0), A[i] == B[i]))
+        goal = z3.Implies(z3.And(prem, lo_ <= a0, a0 <= b0, b0 <= h0), SUM(A, a0, b0) == SUM(B, a0, b0))
+        ax = sum_axioms_nonrecursive() + [z3.Implies(b0 > a0, SUM(X, a0, b0) == SUM(X, a0, b0 - 1) + X[b0 - 1]) for X in (A, B)]
+    else:
+        # ground unfolding of every SUM term of the goal (one step is what the induction step needs); the recursive
+        # axiom itself is a matching loop and is left out
+        ax = sum_axioms_nonrecursive()
+        seen, stack = set(), [goal]
+        while stack:
+            t = stack.pop()
+            if t.get_id() in seen:
+                continue
+            seen.add(t.get_id())
+            if z3.is_quantifier(t):
+                stack.append(t.body())
+                continue
+            if z3.is_app(t):
+                if t.decl().name() == "SUM" and not any(z3.is_var(c) for c in _all_subterms(t)):
+                    X, l_, h_ = t.children()
+                    ax.append(z3.Implies(h_ > l_, SUM(X, l_, h_) == SUM(X, l_, h_ - 1) + X[h_ - 1]))
+                stack.extend(t.children())
+    o = Obligation(f"lemma::{name}::induction-step", ax + deps + [hyp], goal, "lemma", "", func="lemma", clause=name)
     return [o]
+
+
+def _all_subterms(t):
+    out, stack = [], [t]
+    while stack:
+        x = stack.pop()
+        out.append(x)
+        if z3.is_app(x):
+            stack.extend(x.children())
+    return out
 
 
 SUM_DEPS = {"SUM_POS": ["SUM_NONNEG"]}
